@@ -468,8 +468,12 @@ func defaultResponse(req *http.Request, extensions, subprotocol string) []byte {
 
 // gwsPair performs a real gws-to-gws handshake over a memPipe; returns (server conn, client conn, server tap, client tap).
 func gwsPair(sopt *gws.ServerOption, copt *gws.ClientOption, sh, ch gws.Event) (*gws.Conn, *gws.Conn, *memConn, *memConn, error) {
+	return gwsPairWith(gws.NewUpgrader(sh, sopt), copt, ch)
+}
+
+// gwsPairWith: a real handshake between a client and a given (possibly long-lived) Upgrader
+func gwsPairWith(up *gws.Upgrader, copt *gws.ClientOption, ch gws.Event) (*gws.Conn, *gws.Conn, *memConn, *memConn, error) {
 	sc, cc := memPipe()
-	up := gws.NewUpgrader(sh, sopt)
 	type res struct {
 		c   *gws.Conn
 		err error
